@@ -728,3 +728,9 @@ func isExportedRecv(f *ssa.Function) bool {
 	}
 	return false
 }
+
+// Holds reports whether, just before instruction in, a lock of the given class
+// (LockOwner.LockField) is held in at least the given mode (must-analysis).
+func (la *LockAnalysis) Holds(in ssa.Instruction, class string, write bool) bool {
+	return satisfied(la.At(in), class, write, false, nil)
+}
